@@ -14,8 +14,8 @@ META = dict(
          "and an empty iterable}; all 3 + 9 + 27 kind sequences. Schedule: the driver alternates Patron.serviceAll / "
          "Valet.serviceAll; servicing the same side again costs one deviation; every recv on either side may return 1 byte, half, "
          "or all but one byte of what is waiting instead of everything (one deviation each); all schedules with <= 2 deviations "
-         "(quick; POST with N = 3 is left to the thorough tier) / <= 4 for N = 1 and the burst mode, <= 3 for N = 2 and for "
-         "GET N = 3, <= 2 for POST N = 3 (thorough). A second mode sends the N requests in one burst from a raw client socket (requests "
+         "(quick; POST with N = 3 is left to the thorough tier) / <= 4 for N = 1 and the burst mode, <= 3 for N = 2 and "
+         "N = 3 (thorough). A second mode sends the N requests in one burst from a raw client socket (requests "
          "pipelined on the wire) and enumerates the server-side short reads. Required: nothing raises; the client gets exactly N "
          "responses, in request order, each carrying the request that caused it (rid, path) and exactly the body the app produced "
          "for that request, both when delivered and at the end of the run; the app is called once per request in order; the bytes "
@@ -43,9 +43,7 @@ def bound_for(mode, method, n):
         return 4
     if n == 1:
         return 4
-    if n == 2:
-        return 3
-    return 3 if method == "GET" else 2
+    return 3
 STEPS_PER_REQ = 14
 TAIL = 4
 
